@@ -138,6 +138,9 @@ def gen_case(rng, tier, idx, shard, nshards):
         from vlib.models import UNIT_PARAMS
 
         unit = float(rng.choice([1e-5, 1e-4, 1e4]))
+        if not any(o[0] == "add_matrix_error" and not o[1].get("relative") and gen.norm_axis(o[1].get("axis")) != "x" for o in ops):
+            # correlations declared through a matrix: after scaling its elements are small (or large) numbers, not zeros
+            ops.insert(len([o for o in ops if o[0] in ("add_error", "add_matrix_error")]), gen.gen_source(rng, n, ftype, "eM", yscale=yscale, force={"kind": "matrix", "axis": "y", "reference": "data", "relative": False}))
         key = "y" if "y" in spec else "data"
         spec[key] = [float(v * unit) for v in spec[key]]
         up = set(UNIT_PARAMS[spec["model"]["family"]])
